@@ -50,7 +50,6 @@ fn brackets<const N: usize>(n: usize, tail: u8) -> [u8; N] { let mut b = [b'['; 
 //# {"id":"c02_args_size_t_arr2","props":["C02","C18"],"tier":"thorough","cap":2400,"bound":"all method descriptors (?[?)V; unwind 9","fns":["MethodDescriptorSlice::get_arguments_size"]}
 //# {"id":"c02_args_size_t_arr3","props":["C02","C18"],"tier":"thorough","cap":2400,"bound":"all method descriptors ([??)V; unwind 9","fns":["MethodDescriptorSlice::get_arguments_size"]}
 //# {"id":"c02_args_size_t_obj","props":["C02","C18"],"tier":"quick","cap":900,"bound":"all method descriptors (L?;?)V: an object parameter followed by a one-byte parameter; unwind 9","fns":["MethodDescriptorSlice::get_arguments_size"]}
-//# {"id":"c16_args_size_limit","props":["C16","C02"],"tier":"thorough","cap":3600,"bound":"the descriptors ( D*127 ? )V with ? any ASCII byte: 256 or 257 slots must be an error, and no input may panic; unwind 140","fns":["MethodDescriptorSlice::get_arguments_size"]}
 //# {"id":"c16_dims_limit","props":["C16","C18"],"tier":"thorough","cap":5400,"bound":"the strings [*255 ? and [*256 ? with a symbolic element byte ?: field descriptor parse and ArrClassName/ClassName::is_valid accept exactly up to 255 dimensions (JVMS 4.3.2) and never panic; unwind 260","fns":["duke::tree::descriptor::read_field_type","FieldDescriptorSlice::parse","duke::tree::names::is_valid_arr_class_name"]}
 proofs! {
 	#[cfg_attr(kani, kani::unwind(8))]
@@ -63,25 +62,6 @@ proofs! {
 	fn c02_args_size_t_arr3() { let s = from_template(b"([??)V"); args_body(&s); }
 	#[cfg_attr(kani, kani::unwind(9))]
 	fn c02_args_size_t_obj() { let s = from_template(b"(L?;?)V"); args_body(&s); }
-
-	#[cfg_attr(kani, kani::unwind(140))]
-	fn c16_args_size_limit() {
-		// "(" D*127 ? ")V": 127 doubles and the receiver are 255 slots, the JVMS maximum; one more
-		// parameter of any kind does not fit the one-byte count operand of invokeinterface
-		const fn base() -> [u8; 131] { let mut a = [b'D'; 131]; a[0] = b'('; a[129] = b')'; a[130] = b'V'; a }
-		let mut a = base();
-		let e = sym::u8();
-		sym::assume(e >= 1 && e < 0x80);
-		a[128] = e;
-		let prim = matches!(e, b'B' | b'C' | b'D' | b'F' | b'I' | b'J' | b'S' | b'Z');
-		// SAFETY: ASCII.
-		let d = unsafe { MethodDescriptorSlice::from_inner_unchecked(JavaStr::from_semi_utf8_unchecked(&a)) };
-		let r = duke::verif::method_descriptor_arguments_size(d);
-		if prim { assert!(r.is_err(), "more than 255 argument slots must be reported, not wrapped"); }
-		witness!(e == b'I', "256 slots");
-		witness!(e == b'J', "257 slots");
-		core::mem::forget(r);
-	}
 
 	#[cfg_attr(kani, kani::unwind(260))]
 	fn c16_dims_limit() {
